@@ -176,6 +176,9 @@ pub fn encode(cap: usize, g0: usize, progs: &[Vec<Cmd>]) -> Vec<i64> {
 pub enum Sched {
     Random,
     Script(Vec<usize>),
+    /// the D8 director: once a deferred function whose body takes a guard is running on thread X,
+    /// alternate "one full round of the other thread" with "X up to the end of its next body command"
+    D8,
 }
 
 pub fn run_case(cap: usize, g0: usize, progs: &[Vec<Cmd>], rng: &mut Rng, sch: Sched) -> (String, Vec<String>) {
@@ -220,9 +223,11 @@ pub fn run_case(cap: usize, g0: usize, progs: &[Vec<Cmd>], rng: &mut Rng, sch: S
     }
     drop(tx);
     // the first nt steps are the start steps of threads 0..nt-1 in order (registration order)
+    let is_d8 = matches!(sch, Sched::D8);
     let res = {
         let mut inner: Box<dyn FnMut(&[usize], usize) -> usize> = match sch {
             Sched::Script(s) => Box::new(policy::scripted(s)),
+            Sched::D8 => Box::new(|_r: &[usize], _| 0),
             Sched::Random => {
                 if rng.chance(1, 2) {
                     let mut r2 = Rng::new(rng.next());
@@ -232,14 +237,61 @@ pub fn run_case(cap: usize, g0: usize, progs: &[Vec<Cmd>], rng: &mut Rng, sch: S
                 }
             }
         };
-        let mut chooser = move |r: &[usize], step: usize| {
+        let d8 = is_d8;
+        let mut x: Option<usize> = None; // the thread running the body with the nested guard
+        let mut turn_other = true;
+        let mut mark = 0usize; // trace length at the last hand-over
+        let mut chooser = move |r: &[usize], step: usize, trace: &[sched::Step]| {
             if step < nt {
-                r.iter().position(|&t| t == step).unwrap_or(0)
-            } else {
-                inner(r, step)
+                return r.iter().position(|&t| t == step).unwrap_or(0);
+            }
+            if !d8 {
+                return inner(r, step);
+            }
+            let pos = |t: usize| r.iter().position(|&q| q == t);
+            if x.is_none() {
+                // look for a nested pin inside a closure body: obs (2011, 0, _)
+                if let Some(st) = trace.last() {
+                    if st.obs.iter().any(|&(s, a, _)| s == 2011 && a == 0) {
+                        x = Some(st.tid);
+                        turn_other = true;
+                        mark = trace.len();
+                    }
+                }
+            }
+            match x {
+                None => {
+                    // before: round-robin over runnable threads in blocks of a few steps
+                    (step / 7) % r.len()
+                }
+                Some(xt) => {
+                    let other = if xt == 0 { 1 } else { 0 };
+                    let since = &trace[mark.min(trace.len())..];
+                    if turn_other {
+                        // the other thread runs until it completes an Unpin operation (one full round)
+                        let done = since.iter().any(|st| st.tid == other && st.obs.iter().any(|&(s, a, _)| s == 2000 && a == 1));
+                        if done || pos(other).is_none() {
+                            turn_other = false;
+                            mark = trace.len();
+                            pos(xt).or(pos(other)).unwrap_or(0)
+                        } else {
+                            pos(other).unwrap_or(0)
+                        }
+                    } else {
+                        // X runs until it starts its next body command (obs 2011) or leaves the body
+                        let done = since.iter().any(|st| st.tid == xt && st.obs.iter().any(|&(s, _, _)| s == 2011 || s == 2000));
+                        if done || pos(xt).is_none() {
+                            turn_other = true;
+                            mark = trace.len();
+                            pos(other).or(pos(xt)).unwrap_or(0)
+                        } else {
+                            pos(xt).unwrap_or(0)
+                        }
+                    }
+                }
             }
         };
-        sched::run(bodies, enabled, 200_000, &mut chooser)
+        sched::run_observed(bodies, enabled, 200_000, &mut chooser)
     };
     let handles: Vec<(usize, usize, SendHandle)> = rx.iter().collect();
     for (tid, addr, _) in &handles {
@@ -294,6 +346,12 @@ fn monitors(nt: usize, sched: &[usize], steps: &[Vec<(u32, i64, i64)>]) -> Vec<S
     let mut cur_op = vec![(9i64, 0i64); nt];
     let mut wit: HashMap<i64, Vec<(usize, u64)>> = HashMap::new();
     let mut in_closure = vec![0usize; nt]; // > 0 while a closure body is running on the thread
+    // guards created by the body of a deferred function while it runs (nested under the guard being
+    // dropped): (depth, serial).  They are critical sections for their user, although the collector's
+    // internal re-pins ignore them (D8).
+    let mut ndepth = vec![0i64; nt];
+    let mut nserial = vec![0u64; nt];
+    let mut nwit: HashMap<i64, Vec<(usize, u64)>> = HashMap::new();
     let see_g = |g: i64, g_seen: &mut i64, in_cs: &Vec<bool>, ann: &Vec<i64>, out: &mut Vec<String>, k: usize| {
         if *g_seen >= 0 && (g < *g_seen || g > *g_seen + 1) {
             out.push(format!("PROPFAIL C14 step {}: global epoch observed {} after {}", k, g, *g_seen));
@@ -331,6 +389,16 @@ fn monitors(nt: usize, sched: &[usize], steps: &[Vec<(u32, i64, i64)>]) -> Vec<S
                 20 => see_g(a / 2, &mut g_seen, &in_cs, &ann, &mut out, k),
                 2010 => {
                     in_closure[t] += 1;
+                    if let Some(ws) = nwit.get(&a) {
+                        for &(q, n) in ws {
+                            if ndepth[q] > 0 && nserial[q] == n {
+                                out.push(format!(
+                                    "PROPFAIL C13 step {}: deferred function {} runs on thread {} while a guard created inside a destructor on thread {} (live at its deferral, nested section {}) is still live [nested-guard-during-collection]",
+                                    k, a, t, q, n
+                                ));
+                            }
+                        }
+                    }
                     if let Some(ws) = wit.get(&a) {
                         for &(q, n) in ws {
                             if in_cs[q] && serial[q] == n {
@@ -347,6 +415,17 @@ fn monitors(nt: usize, sched: &[usize], steps: &[Vec<(u32, i64, i64)>]) -> Vec<S
                     if a == 3 {
                         let ws: Vec<(usize, u64)> = (0..nt).filter(|&q| in_cs[q]).map(|q| (q, serial[q])).collect();
                         wit.insert(_b, ws);
+                        let nws: Vec<(usize, u64)> = (0..nt).filter(|&q| ndepth[q] > 0).map(|q| (q, nserial[q])).collect();
+                        nwit.insert(_b, nws);
+                    }
+                    // guards of the body: pin / unpin
+                    if a == 0 {
+                        ndepth[t] += 1;
+                        if ndepth[t] == 1 {
+                            nserial[t] += 1;
+                        }
+                    } else if a == 1 {
+                        ndepth[t] -= 1;
                     }
                 }
                 2000 => {
@@ -371,6 +450,8 @@ fn monitors(nt: usize, sched: &[usize], steps: &[Vec<(u32, i64, i64)>]) -> Vec<S
                         3 => {
                             let ws: Vec<(usize, u64)> = (0..nt).filter(|&q| in_cs[q]).map(|q| (q, serial[q])).collect();
                             wit.insert(arg, ws);
+                            let nws: Vec<(usize, u64)> = (0..nt).filter(|&q| ndepth[q] > 0).map(|q| (q, nserial[q])).collect();
+                            nwit.insert(arg, nws);
                         }
                         _ => {}
                     }
@@ -380,4 +461,19 @@ fn monitors(nt: usize, sched: &[usize], steps: &[Vec<(u32, i64, i64)>]) -> Vec<S
         }
     }
     out
+}
+
+/// The fixed two-thread program of the D8 attack: thread 0 defers a function whose body takes a guard
+/// and flushes repeatedly under it (each flush re-pins the collecting thread); thread 1 defers a
+/// function and keeps advancing the epoch.  Random schedules are searched for one in which thread 1's
+/// function runs while thread 0's nested guard, live at its deferral, is still live.
+pub fn d8_program() -> (usize, usize, Vec<Vec<Cmd>>) {
+    let body = vec![Cmd::Pin, Cmd::Flush, Cmd::Flush, Cmd::Flush, Cmd::Flush, Cmd::Flush, Cmd::Unpin];
+    let mut a = vec![Cmd::Pin, Cmd::Defer(1, body.clone()), Cmd::Flush, Cmd::Unpin];
+    let mut b = vec![Cmd::Pin, Cmd::Defer(2, body), Cmd::Flush, Cmd::Unpin];
+    for i in 0..10u64 {
+        a.extend([Cmd::Pin, Cmd::Defer(100 + i, vec![]), Cmd::Flush, Cmd::Unpin]);
+        b.extend([Cmd::Pin, Cmd::Defer(200 + i, vec![]), Cmd::Flush, Cmd::Unpin]);
+    }
+    (4, 0, vec![a, b])
 }
